@@ -16,6 +16,7 @@ Definition oracle := list val -> list (string * val) -> world -> res (val * worl
 Inductive callee :=
 | CFun (f : fundef)
 | COracle (o : oracle)
+| CClass (cls : string) (init : fundef)   (* ClassName(args): runs __init__ on a fresh object and returns it *)
 | CTail (o : oracle).      (* a self-call in tail position `return self.m(...)`: performed by the caller after the body returns *)
 Record fenv := FEnv { methods : string -> string -> option callee; globals : string -> option callee }.
 (* module constants such as const.c : looked up through [globals] as zero-argument oracles *)
@@ -233,6 +234,17 @@ Fixpoint enum_from (i : Z) (l : list val) : list val :=
 Definition as_list (v : val) : res (list val) :=
   match v with VList l | VTuple l => Ok l | VDict d => Ok (map fst d) | _ => Stuck "not iterable" end.
 Definition pure_ (r : res val) (w : world) : res (val * world) := do v <- r; Ok (v, w).
+Definition fold_num (f : R -> R -> R) (l : list val) : res val :=
+  match l with
+  | [] => Exc "ValueError"
+  | x :: r =>
+      match to_x x with
+      | Some (Fin x0) =>
+          (fix go (acc : R) (r : list val) : res val :=
+             match r with [] => Ok (VNum (Fin acc))
+             | y :: r' => match to_x y with Some (Fin y0) => go (f acc y0) r' | _ => Stuck "min/max: non-finite" end end) x0 r
+      | _ => Stuck "min/max: non-finite" end
+  end.
 Definition builtin (name : string) (args : list val) (kws : list (string * val)) (w : world) : option (res (val * world)) :=
   match name with
   | "np.maximum" => Some (match args with [a; b] => pure2 xmax a b w | _ => Exc "TypeError" end)
@@ -244,6 +256,14 @@ Definition builtin (name : string) (args : list val) (kws : list (string * val))
   | "np.sum" | "sum" => Some (match args with [a] => do l <- as_list a; vsum_l l w | _ => Exc "TypeError" end)
   | "np.zeros_like" => Some (pure_ (match args with [a] => do l <- as_list a; Ok (VList (map (fun _ => VNum (Fin 0)) l)) | _ => Exc "TypeError" end) w)
   | "np.ones_like" => Some (pure_ (match args with [a] => do l <- as_list a; Ok (VList (map (fun _ => VNum (Fin 1)) l)) | _ => Exc "TypeError" end) w)
+  | "min" | "np.min" => Some (pure_ (match args with [a] => do l <- as_list a; fold_num Rmin l | _ => Stuck "min: arity" end) w)
+  | "max" | "np.max" => Some (pure_ (match args with [a] => do l <- as_list a; fold_num Rmax l | _ => Stuck "max: arity" end) w)
+  | "isinstance" => Some (pure_ (match args with
+                     | [VList _; VMod "list"] => Ok (VBool true) | [_; VMod "list"] => Ok (VBool false)
+                     | [VInt _; VMod "int"] => Ok (VBool true) | [VBool _; VMod "int"] => Ok (VBool true) | [_; VMod "int"] => Ok (VBool false)
+                     | _ => Stuck "isinstance" end) w)
+  | "tuple" => Some (pure_ (match args with [a] => do l <- as_list a; Ok (VTuple l) | _ => Stuck "tuple" end) w)
+  | "np.ones" => Some (pure_ (match args with [VInt n] => Ok (VList (repeat (VNum (Fin 1)) (Z.to_nat n))) | _ => Stuck "np.ones" end) w)
   | "np.nan_to_num" => Some (num1 xnan_to_num args w)
   | "np.isfinite" => Some (match args with [a] => match to_x a with Some x => Ok (VBool (xisfinite x), w) | None => Stuck "isfinite" end | _ => Exc "TypeError" end)
   | "copy.deepcopy" | "np.array" | "float" => Some (match args with a :: _ => Ok (a, w) | _ => Exc "TypeError" end)
@@ -387,6 +407,9 @@ Definition exec_stmt (tl : string -> string -> option oracle)
       match fst rw with
       | VList l => norm (assign_ recv (VList (l ++ [fst aw])%list) ρ (snd aw))
       | _ => Stuck "append receiver" end
+  | SExpr (ECall (EAttr (EName _) "__init__") (EName sname :: _) _ as e) =>
+      (* Base.__init__(self, ...): the (functional) constructor result is written back to self *)
+      do vw <- ev e ρ w; norm (assign_ (EName sname) (fst vw) ρ (snd vw))
   | SExpr e => do vw <- ev e ρ w; Ok (ONormal ρ, snd vw)
   | SIf c t e => do cw <- ev c ρ w; do b <- m_truthy (fst cw) (snd cw); ex (if fst b then t else e) ρ (snd b)
   | SFor t it body =>
@@ -440,7 +463,9 @@ Fixpoint eval (fuel : nat) (e : expr) (ρ : env) (w : world) {struct fuel} : res
   match e with
   | ENone => Ok (VNone, w) | EBool b => Ok (VBool b, w) | EInt z => Ok (VInt z, w)
   | EFloat m ex => Ok (VNum (Fin (dec m ex)), w) | EStr s => Ok (VStr s, w)
-  | EName x => Ok (match lookup x ρ with Some v => v | None => VMod x end, w)
+  | EName x => match lookup x ρ with
+               | Some v => Ok (v, w)
+               | None => match globals G x with Some (COracle o) => o [] [] w | _ => Ok (VMod x, w) end end
   | EAttr e' a =>
       do vw <- eval f e' ρ w;
       match fst vw with
@@ -498,9 +523,16 @@ Fixpoint eval (fuel : nat) (e : expr) (ρ : env) (w : world) {struct fuel} : res
           | EAttr recv m =>
               do rw <- eval f recv ρ w1;
               match fst rw with
-              | VObj cls _ => match methods G cls m with
+              | VObj cls fs => match methods G cls m with
                               | Some c => call f c (Some (fst rw)) argv kwv (snd rw)
-                              | None => Stuck ("unknown method " ++ cls ++ "." ++ m) end
+                              | None =>
+                                  (* an attribute holding a callable object: obj.attr(args) = attr.__call__(args) *)
+                                  match field_get m fs with
+                                  | Some (VObj ocls ofs) =>
+                                      match methods G ocls "__call__" with
+                                      | Some c => call f c (Some (VObj ocls ofs)) argv kwv (snd rw)
+                                      | None => Stuck ("object not callable " ++ ocls) end
+                                  | _ => Stuck ("unknown method " ++ cls ++ "." ++ m) end end
               | VList _ =>
                   if String.eqb m "dot" then match argv with [b] => np_dot (fst rw) b (snd rw) | _ => Exc "TypeError" end
                   else Stuck ("list method " ++ m)
@@ -522,6 +554,7 @@ with call (fuel : nat) (c : callee) (self : option val) (args : list val) (kws :
   match fuel with O => Stuck "fuel" | S f =>
   match c with
   | COracle o | CTail o => o (match self with Some s => s :: args | None => args end) kws w
+  | CClass cls fd => call f (CFun fd) (Some (VObj cls [])) args kws w
   | CFun fd =>
       let args' := match self with Some s => if f_static fd then args else s :: args | None => args end in
       do b <- bind_params (f_params fd) args' kws (fun de => do r <- eval f de [] w; Ok (fst r));
@@ -532,7 +565,9 @@ with call (fuel : nat) (c : callee) (self : option val) (args : list val) (kws :
       do ow <- exec f (f_body fd) ρ0 w;
       match fst ow with
       | OReturn v => Ok (v, snd ow)
-      | ONormal _ => Ok (VNone, snd ow)
+      | ONormal ρ' => (* a constructor call evaluates to the constructed object *)
+          if String.eqb (f_name fd) "__init__" then Ok (match lookup "self" ρ' with Some o => o | None => VNone end, snd ow)
+          else Ok (VNone, snd ow)
       | OTail o targs tkws => o targs tkws (snd ow)
       end
   end end
